@@ -78,13 +78,14 @@ var c11sources = map[string]string{
 	"/both.jet":       `{{import "/liba.jet"}}{{import "/libb.jet"}}both:{{yield tag()}}`,
 	"/pagea.jet":      `{{import "/liba.jet"}}a:{{yield tag()}}`,
 	"/row.jet":        `{{.Label}}#{{.N}}`,
+	"/mapfresh.jet":   `{{ m := map() }}{{ len(m) }}{{ m.k = .Tag }}{{ len(m) }}{{ m.k }}|{{ len(map()) }}`,
 	"/promoted1.jet":  `{{.First}}/{{.Third}}`,
 	"/promoted2.jet":  `{{.Second}}/{{.Top}}`,
 	"/badinc.jet":     `x<{{include "/unparsable.jet"}}>`,
 	"/unparsable.jet": `u{{ if }}v`,
 }
 
-var c11stable = []string{"/promoted1.jet", "/promoted2.jet", "/pagea.jet", "/both.jet", "/pagea.jet", "/badinc.jet", "/page.jet", "/page2.jet", "/ranges.jet", "/fields.jet", "/inc.jet", "/try.jet", "/funcs.jet", "/global.jet", "/esc.jet"}
+var c11stable = []string{"/mapfresh.jet", "/promoted1.jet", "/promoted2.jet", "/pagea.jet", "/both.jet", "/pagea.jet", "/badinc.jet", "/page.jet", "/page2.jet", "/ranges.jet", "/fields.jet", "/inc.jet", "/try.jet", "/funcs.jet", "/global.jet", "/esc.jet"}
 
 func c11vars() jet.VarMap {
 	ch := make(chan int, 3)
